@@ -268,11 +268,14 @@ func (m *roaManager) handleRTRMsg(client *roaClient, state *oc.RpkiServerState, 
 			}
 		case *rtr.RTREndOfData:
 			received.EndOfData++
-			if client.sessionID != msg.SessionID {
+			if client.sessionID != msg.SessionID || client.resetQuerySent {
 				// remove all ROAs related with the
-				// previous session
+				// previous session, or, when this
+				// answers a Reset Query, everything
+				// the full reload does not repeat
 				m.table.DeleteAll(client.host)
 			}
+			client.resetQuerySent = false
 			client.sessionID = msg.SessionID
 			client.serialNumber = msg.SerialNumber
 			client.endOfData = true
@@ -354,9 +357,11 @@ type roaClient struct {
 	timer        *time.Timer
 	lifetime     int64
 	endOfData    bool
-	pendingROAs  []*table.ROA
-	cancelfnc    context.CancelFunc
-	ctx          context.Context
+	// a Reset Query is outstanding: the next End of Data completes a full reload
+	resetQuerySent bool
+	pendingROAs    []*table.ROA
+	cancelfnc      context.CancelFunc
+	ctx            context.Context
 }
 
 func newRoaClient(address, port string, ch chan *roaEvent, lifetime int64) *roaClient {
@@ -396,6 +401,7 @@ func (c *roaClient) softReset() error {
 		}
 		c.state.RpkiMessages.RpkiSent.ResetQuery++
 		c.endOfData = false
+		c.resetQuerySent = true
 		c.pendingROAs = make([]*table.ROA, 0)
 	}
 	return nil
